@@ -32,6 +32,7 @@ class MThread:
         self.steps = 0
         self.real = threading.Thread(target=self._main, name='managed-' + name, daemon=True)
         self.exc = None
+        self.line_rng = None
 
     def _main(self):
         self.sem.acquire()
@@ -39,6 +40,9 @@ class MThread:
             if self.kill:
                 raise Killed()
             self.state = 'running'
+            if self.sched.fine:
+                import sys
+                sys.settrace(self.sched._tracer)
             self.fn(*self.args)
         except (Killed, Halt):
             pass
@@ -59,7 +63,16 @@ class MThread:
 
 
 class Sched:
-    def __init__(self):
+    def __init__(self, fine=None, fine_seed=0, fine_p=0.12):
+        # fine: None, or a tuple of file-name suffixes: every source LINE of those files executed by a managed thread is a
+        # preemption point of its own (kind 'line').  CPython may switch threads between any two bytecodes, so this is the
+        # faithful granularity; it is used for oracle-only runs (the label mappings of the models work at region granularity).
+        self.fine = tuple(fine) if fine else None
+        # a line is made a preemption point with probability fine_p, decided by a per-thread generator seeded from
+        # (fine_seed, thread name): not parking is the same as the controller choosing the same thread again, and it
+        # saves the hand-over; a run is reproduced by (scenario, fine_seed, controller choices)
+        self.fine_seed = fine_seed
+        self.fine_p = fine_p
         self.threads = []
         self.by_real = {}
         self.current = None
@@ -81,6 +94,22 @@ class Sched:
 
     def me(self):
         return self.by_real.get(threading.get_ident())
+
+    def _tracer(self, frame, event, arg):
+        if event == 'call' and frame.f_code.co_filename.endswith(self.fine):
+            return self._line_tracer
+        return None
+
+    def _line_tracer(self, frame, event, arg):
+        if event == 'line':
+            t = self.me()
+            if t is not None:
+                if t.line_rng is None:
+                    import random
+                    t.line_rng = random.Random('%s/%s' % (self.fine_seed, t.name))
+                if t.line_rng.random() < self.fine_p:
+                    self.yield_('line', (frame.f_code.co_name, frame.f_lineno))
+        return self._line_tracer
 
     def yield_(self, kind, data=None, cond=None):
         """park the calling managed thread at a yield point; returns when scheduled.
